@@ -208,6 +208,8 @@ type fcore struct {
 	OnSave func(id string, off eventbus.Offset)
 	// OnAppend is called when an event became durable.
 	OnAppend func(off eventbus.Offset, ev *eventbus.Event)
+	// OnAppendResult reports what the caller of Append was told: ok, failed, lost-ack, blocked
+	OnAppendResult func(ev *eventbus.Event, outcome string)
 	// AppendCalls counts calls that reached the decorator (for the no-retry rule)
 	AppendCalls int
 	AppendCtxErrAtReturn []bool
@@ -245,10 +247,12 @@ func (f *fcore) Append(ctx context.Context, ev *eventbus.Event) (eventbus.Offset
 		<-ctx.Done()
 		simrt.AfterBlock(tok)
 		f.AppendCtxErrAtReturn = append(f.AppendCtxErrAtReturn, ctx.Err() != nil)
+		f.result(ev, "blocked")
 		return "", ctx.Err()
 	}
 	if has(f.plan.FailAppend, k) {
 		f.fire("append-fails")
+		f.result(ev, "failed")
 		return "", errInjected
 	}
 	off, err := f.inner.Append(ctx, ev)
@@ -258,9 +262,21 @@ func (f *fcore) Append(ctx context.Context, ev *eventbus.Event) (eventbus.Offset
 	simrt.Yield(siteStoreOp)
 	if err == nil && has(f.plan.LostAckAppend, k) {
 		f.fire("append-lost-ack")
+		f.result(ev, "lost-ack")
 		return "", errInjected
 	}
+	if err != nil {
+		f.result(ev, "failed")
+	} else {
+		f.result(ev, "ok")
+	}
 	return off, err
+}
+
+func (f *fcore) result(ev *eventbus.Event, outcome string) {
+	if f.OnAppendResult != nil {
+		f.OnAppendResult(ev, outcome)
+	}
 }
 
 func (f *fcore) Read(ctx context.Context, from eventbus.Offset, limit int) ([]*eventbus.StoredEvent, eventbus.Offset, error) {
